@@ -223,6 +223,7 @@ func C37(e *simkern.Env) {
 		}
 		// ---- pipe: once with the planned (panicking) hook, once with a silent one
 		cut := 0
+		pipeline := 0
 		runPipe := func(h *planHook) (*pipew.Session, simkern.StopReason, []int) {
 			hx.Rec.Reset()
 			sess := &pipew.Session{Srv: pipew.NewServer(func(s *vgirpc.Server) {
@@ -234,7 +235,7 @@ func C37(e *simkern.Env) {
 					cfg.ExternalizeThresholdBytes = 1 << 30 // inputs only: outputs stay inline
 					s.SetExternalLocation(cfg)
 				}
-			}), Ops: ops, S2CCutAt: cut, ExtInput: extIn}
+			}), Ops: ops, S2CCutAt: cut, ExtInput: extIn, Pipeline: pipeline}
 			// record the event index at the start of every call
 			marks := []int{}
 			_ = marks
@@ -289,9 +290,20 @@ func C37(e *simkern.Env) {
 				if !e.Violated() && len(sessB.WireS2C) > 1 && tp.Bool(2, 3) {
 					cut = 1 + tp.Draw(len(sessB.WireS2C)-1)
 					e.Knob("peer_hangup_after_bytes", cut)
+					// the client has the following requests on the wire already, so
+					// the server could go on reading them after its write failed
+					pipeline = tp.Draw(4)
 					hC := mkHook(false)
 					sessC, rC, _ := runPipe(hC)
-					cut = 0
+					var hD *planHook
+					rD := simkern.StopDone
+					if rC == simkern.StopDone && sessC.ServerReturned {
+						// and once more with the panicking hook: what is dispatched
+						// after the failed write must not depend on the hook
+						hD = mkHook(true)
+						_, rD, _ = runPipe(hD)
+					}
+					cut, pipeline = 0, 0
 					sim.Fault("peer-hangup-mid-response")
 					if rC == simkern.StopDeadlock {
 						e.Violate("session-deadlock", "pipe-hangup:"+nextSig(sessC), "after the peer hung up at byte %d: %s", cut, sessC.StuckDetail())
@@ -315,6 +327,24 @@ func C37(e *simkern.Env) {
 						}
 					} else if rC != simkern.StopDone {
 						reason = rC
+					}
+					if !e.Violated() && hD != nil && rD == simkern.StopDone {
+						nC, nD := 0, 0
+						for _, ev := range hC.events {
+							if ev.start {
+								nC++
+							}
+						}
+						for _, ev := range hD.events {
+							if ev.start {
+								nD++
+							}
+						}
+						if nC != nD {
+							e.Violate("hook-panic-changes-later-calls", "pipe-hangup", "the peer hung up after %d bytes of the server's output with %d further request(s) already on the wire: %d calls were dispatched with the panicking hook, %d with a silent hook", sessC.SConn.W.Written, sessC.Pipeline, nD, nC)
+						}
+					} else if hD != nil && rD == simkern.StopDeadlock && !e.Violated() {
+						e.Violate("session-deadlock", "pipe-hangup", "with the panicking hook, after the peer hung up")
 					}
 				}
 			}
@@ -406,7 +436,7 @@ func init() {
 	Registry["C37"] = &Info{
 		Run:   C37,
 		Level: "exploration",
-		Rule:  "each run draws a call history (2-7 calls: unary, producer/exchange/dynamic streams with failing turns, init failures, cancels, malformed and unknown-method requests) and a hook panic plan (rate 0, 3/10 or 6/10 per callback, separately for start and end); the history runs on a simulated pipe and over HTTP (every init/continuation/cancel is its own dispatch; producer batch limit 0-2), each once with the planned hook and once with a silent recording hook; per dispatch the hook events are judged and the client-visible responses of the two runs compared; in two runs of three the pipe history runs a third time with the peer hanging up at a drawn byte of the server's output, after which every start must have had exactly one end; distinct = schedule fingerprint",
+		Rule:  "each run draws a call history (2-7 calls: unary, producer/exchange/dynamic streams with failing turns, init failures, cancels, malformed and unknown-method requests) and a hook panic plan (rate 0, 3/10 or 6/10 per callback, separately for start and end); the history runs on a simulated pipe and over HTTP (every init/continuation/cancel is its own dispatch; producer batch limit 0-2), each once with the planned hook and once with a silent recording hook; per dispatch the hook events are judged and the client-visible responses of the two runs compared; in two runs of three the pipe history runs a third time with the peer hanging up at a drawn byte of the server's output, after which every start must have had exactly one end (the client may have 0-3 further requests on the wire already; the hang-up run is repeated with the panicking hook and must dispatch the same number of calls); distinct = schedule fingerprint",
 		Real:  []string{"vgirpc serveOne hook bracket, HttpServer.startDispatchHook and its deferred end on unary / stream init / exchange / producer continuation / cancel paths"},
 		Stub:  []string{"transports", "protocol client", "recording / panicking DispatchHook", "scripted handlers"},
 		Quick: 700, Thorough: 60000,
